@@ -118,8 +118,15 @@ func c33HostOf(sys ActorSystem) string { return sys.Host() + ":" + strconv.Itoa(
 // is the natural "this item cannot be re-created there" failure)
 type c33KindA struct{}
 
+// c33SlowStart makes PreStart of the test actors take that many nanoseconds (used by the
+// real-cluster unit to keep a relocation in flight long enough for duplicates to land in it)
+var c33SlowStart atomic.Int64
+
 func (*c33KindA) PreStart(ctx *Context) error {
 	c33Live.start(ctx.ActorName(), c33HostOf(ctx.ActorSystem()))
+	if d := c33SlowStart.Load(); d > 0 {
+		time.Sleep(time.Duration(d))
+	}
 	return nil
 }
 func (*c33KindA) Receive(*ReceiveContext) {}
@@ -132,6 +139,9 @@ type c33KindB struct{}
 
 func (*c33KindB) PreStart(ctx *Context) error {
 	c33Live.start(ctx.ActorName(), c33HostOf(ctx.ActorSystem()))
+	if d := c33SlowStart.Load(); d > 0 {
+		time.Sleep(time.Duration(d))
+	}
 	return nil
 }
 func (*c33KindB) Receive(*ReceiveContext) {}
@@ -512,10 +522,10 @@ func (v *c33View) Members(context.Context) ([]*cluster.Peer, error) {
 	return members, nil
 }
 
-func (v *c33View) IsLeader(context.Context) bool   { return v.idx == 0 }
-func (v *c33View) GetPartition(string) uint64       { return 0 }
-func (v *c33View) IsRunning() bool                  { return true }
-func (v *c33View) LastRebalanceEvent() time.Time    { return time.Time{} }
+func (v *c33View) IsLeader(context.Context) bool { return v.idx == 0 }
+func (v *c33View) GetPartition(string) uint64    { return 0 }
+func (v *c33View) IsRunning() bool               { return true }
+func (v *c33View) LastRebalanceEvent() time.Time { return time.Time{} }
 func (v *c33View) ClaimScheduleFire(context.Context, string, time.Duration) error {
 	return nil
 }
